@@ -1,5 +1,49 @@
-(* C02 — every value-array encoding is lossless and reports the right row count. *)
-From Sbdf Require Import Va.
-Theorem C02_placeholder : forall o, va_row_cnt {| vty := oty o; venc := SBDF_PLAINARRAYENCODINGTYPEID; value1 := 0; o1 := Some o; o2 := None |} = ocount o.
-Proof. intros o. reflexivity. Qed.
-Print Assumptions C02_placeholder.
+(* C02 — every value-array encoding is lossless and reports the right row count.
+   Only statements and `exact`; the proofs are in VaFacts.v. *)
+From Sbdf Require Import Va VaFacts PrimFacts ObjFacts.
+
+(* plain, run-length: decoding returns the original values, in order, bit for bit; the row count
+   is the number of values.  `obj_ok` = the element type is one the constructors accept. *)
+Theorem C02_plain_lossless : forall o, obj_ok o ->
+  exists v, va_create_plain o = Ok v /\ va_get_values v = Ok o /\ va_row_cnt v = ocount o.
+Proof. exact va_plain_lossless. Qed.
+Print Assumptions C02_plain_lossless.
+
+Theorem C02_rle_lossless : forall o, obj_ok o ->
+  exists v, va_create_rle o = Ok v /\ va_get_values v = Ok o /\ va_row_cnt v = ocount o.
+Proof. exact va_rle_lossless. Qed.
+Print Assumptions C02_rle_lossless.
+
+(* bit packing maps each element to zero / non-zero *)
+Theorem C02_bit_lossless : forall o, obj_ok o ->
+  exists v, va_create_bit o = Ok v /\ va_get_values v = Ok (bools_of o) /\ va_row_cnt v = ocount o.
+Proof. exact va_bit_lossless. Qed.
+Print Assumptions C02_bit_lossless.
+
+(* the run-length encoder itself: runs expand to the input, add up to its length, pair up with
+   the values and are stored as length-1 in a byte (so no run is longer than 256) *)
+Theorem C02_rle_runs : forall elems,
+  let '(rs, vs) := rle_encode elems in
+  rle_expand rs vs = elems /\ rle_total rs = zlen elems /\ length rs = length vs /\ runs_ok rs.
+Proof. exact rle_encode_spec. Qed.
+Print Assumptions C02_rle_runs.
+
+Theorem C02_unknown_encoding_refused : forall enc o,
+  enc <> SBDF_PLAINARRAYENCODINGTYPEID -> enc <> SBDF_RUNLENGTHENCODINGTYPEID -> enc <> SBDF_BITARRAYENCODINGTYPEID ->
+  va_create enc o = Err SBDF_ERROR_UNKNOWN_VALUEARRAY_ENCODING.
+Proof. exact va_unknown_encoding_refused. Qed.
+Print Assumptions C02_unknown_encoding_refused.
+
+(* the same after the array has been written to a stream and read back (either byte order
+   configuration): the reader returns the very array, whatever follows it in the stream, and the
+   writer produced exactly those bytes under any sufficient budget *)
+Theorem C02_write_read : forall swp v, wf_va v -> byte_ok (vty v) ->
+  wspec (va_write swp v) (Ok tt) (enc_va swp v) /\ rspec (va_read swp None) (enc_va swp v) v.
+Proof. intros swp v W B. split; [exact (wspec_va swp v W)|exact (rspec_va swp v W B)]. Qed.
+Print Assumptions C02_write_read.
+
+(* the hypotheses are satisfiable by a non-trivial value: an int array with a 257-run *)
+Example C02_nonvacuous :
+  let o := {| oty := SBDF_INTTYPEID; oelems := repeat [7; 0; 0; 0] 257 ++ [[8; 0; 0; 0]] |} in
+  obj_ok o /\ fst (rle_encode (oelems o)) = [255; 0; 0].
+Proof. split; [right; reflexivity|vm_compute; reflexivity]. Qed.
